@@ -25,6 +25,24 @@ class Box {
 *)
 Definition w_ts_loc : sfile := F Ts ".ts" [L LCode "class Box {"; L LComment "// note"; L LBlank ""; L LCode "run() { return 1; }"; L LCode "}"] [C "Box" CPlain 1 0 0 5 [M MPlain "run"]] [] [].
 Definition c_ts_loc : config := [("srp", [("max_loc", VNat 3); ("check_keywords", VBool false)])].
+(* py_setter:
+class Box:
+    @property
+    def x(self): return 1
+    @x.setter
+    def x(self, value): pass
+    def run(self): return 1
+*)
+Definition w_py_setter : sfile := F Py ".py" [L LCode "class Box:"; L LCode "@property"; L LCode "def x(self): return 1"; L LCode "@x.setter"; L LCode "def x(self, value): pass"; L LCode "def run(self): return 1"] [C "Box" CPlain 1 0 0 6 [M MProperty "x"; M MSetter "x"; M MPlain "run"]] [] [].
+Definition c_py_setter : config := [("srp", [("max_methods", VNat 1); ("check_keywords", VBool false)])].
+(* py_cached:
+class Box:
+    @cached_property
+    def x(self): return 1
+    def run(self): return 1
+*)
+Definition w_py_cached : sfile := F Py ".py" [L LCode "class Box:"; L LCode "@cached_property"; L LCode "def x(self): return 1"; L LCode "def run(self): return 1"] [C "Box" CPlain 1 0 0 4 [M MCachedProp "x"; M MPlain "run"]] [] [].
+Definition c_py_cached : config := [("srp", [("max_methods", VNat 1); ("check_keywords", VBool false)])].
 (* ts_block:
 class Box {
   /* block */
@@ -130,6 +148,16 @@ Proof. vm_compute. split; [reflexivity | split; [discriminate | reflexivity]]. Q
 Theorem C16_rs_block_comment_counted_refuted :
   file_good w_rs_block = true /\ report srp_actual c_rs_block w_rs_block <> spec_report c_rs_block w_rs_block
   /\ report (with_flag 5 srp_actual) c_rs_block w_rs_block = spec_report c_rs_block w_rs_block.
+Proof. vm_compute. split; [reflexivity | split; [discriminate | reflexivity]]. Qed.
+
+Theorem C16_py_setter_counted_refuted :
+  file_good w_py_setter = true /\ report srp_actual c_py_setter w_py_setter <> spec_report c_py_setter w_py_setter
+  /\ report (with_flag 6 srp_actual) c_py_setter w_py_setter = spec_report c_py_setter w_py_setter.
+Proof. vm_compute. split; [reflexivity | split; [discriminate | reflexivity]]. Qed.
+
+Theorem C16_py_cached_property_counted_refuted :
+  file_good w_py_cached = true /\ report srp_actual c_py_cached w_py_cached <> spec_report c_py_cached w_py_cached
+  /\ report (with_flag 7 srp_actual) c_py_cached w_py_cached = spec_report c_py_cached w_py_cached.
 Proof. vm_compute. split; [reflexivity | split; [discriminate | reflexivity]]. Qed.
 
 (* fixed by c90fc92: the old witness of q_ts_loc_raw_span now meets the specification *)
